@@ -108,7 +108,7 @@ fn scan_sources(run: &mut Run) {
             }
         }
     }
-    walk(std::path::Path::new("/repo/src"), &mut hits);
+    walk(&std::path::Path::new(&crate::ev::repo_home()).join("src"), &mut hits);
     if hits.is_empty() {
         run.assume("source scan of /repo/src: no static / thread_local! / unsafe / lock / atomic / cell construct: calls share no memory, so call-level interleavings are all the distinguishable schedules");
     } else {
